@@ -355,7 +355,7 @@ class Locale:
             date = date.replace(tzinfo=datetime.timezone.utc)
         now = datetime.datetime.now(datetime.timezone.utc)
         if date > now:
-            if relative and (date - now).seconds < 60:
+            if relative and (date - now).total_seconds() < 60:
                 # Due to click skew, things are some things slightly
                 # in the future. Round timestamps in the immediate
                 # future down to now in relative mode.
@@ -475,12 +475,12 @@ class Locale:
         """Returns a comma-separated number for the given integer."""
         if self.code not in ("en", "en_US"):
             return str(value)
-        s = str(value)
+        s = str(abs(value))
         parts = []
         while s:
             parts.append(s[-3:])
             s = s[:-3]
-        return ",".join(reversed(parts))
+        return ("-" if value < 0 else "") + ",".join(reversed(parts))
 
 
 class CSVLocale(Locale):
